@@ -248,7 +248,7 @@ Definition spec_assumptions_no_output (outputs : list pred) (fs : list aformula_
 Definition spec_roles_supported (fs : list aformula_annot) : bool :=
   forallb (fun a => match an_role a with RAssumption | RSpec => true | _ => false end) fs.
 
-(* ---------- the empty completed definitions of missing output predicates (/repo <COMMIT-F17>) ----------
+(* ---------- the empty completed definitions of missing output predicates (/repo 70e6ace) ----------
    `forall V1..Vn (p(V1..Vn) <-> #false)`: atomic_formula_from + the completed definition with no
    partial definition, i.e. exactly what completion.rs builds for a predicate that occurs in rule
    bodies only; for every output predicate (user-guide order) that is not a predicate of the
@@ -359,7 +359,7 @@ Definition c_spec_assumptions_no_output (t : ext_task) : bool :=
 Definition c_placeholders_single_sorted (t : ext_task) : bool :=
   negb (placeholder_clash (ug_placeholders (et_user_guide t)) []).
 
-(* theory_translate; None = panic (expect).  Since /repo <COMMIT-F17> (finding F17) every output
+(* theory_translate; None = panic (expect).  Since /repo 70e6ace (finding F17) every output
    predicate of the user guide that does not occur in the completed theory receives the empty
    completed definition, appended after the completion and before the simplification. *)
 Definition theory_translate (t : ext_task) (m : placeholders) (p : program) : option theory :=
